@@ -1126,6 +1126,8 @@ def mon_guard(t):
     once put_or_update(k, v) has returned every read returns v."""
     out = []
     deleted, current = set(), {}
+    put_ack, put_acknowledged = {}, set()
+    delete_ack, acked = {}, set()      # acknowledgement index -> key of a queued delete; keys whose delete is acknowledged as accepted
     for i, r in enumerate(t.recs):
         if r["skipped"]:
             continue
@@ -1133,6 +1135,26 @@ def mon_guard(t):
         done = []
         if p[0] == "call" and r["ret"] and r["ret"][0] in (0, 1):
             done.append(p[2:])
+        if p[0] == "call" and p[2] in ("put", "put_w", "put_ttl", "put_w_ttl") and r["ret"] and r["ret"][0] == 0 and len(r["ret"]) > 1:
+            put_ack[r["ret"][1]] = int(p[3])
+        if p[0] == "call" and p[2] == "delete":
+            # the puts of this key that were acknowledged as accepted when delete was called
+            if any(k == int(p[3]) and a < len(t.recs[i - 1]["acks"]) and t.recs[i - 1]["acks"][a] == 1 for a, k in put_ack.items()) if i > 0 else False:
+                put_acknowledged.add(int(p[3]))
+            else:
+                put_acknowledged.discard(int(p[3]))
+        if p[0] == "call" and p[2] == "delete" and r["ret"] and r["ret"][0] == 0 and len(r["ret"]) > 1:
+            delete_ack[r["ret"][1]] = int(p[3])
+        if p[0] == "call" and p[2] in ("put", "put_w", "put_ttl", "put_w_ttl", "upsert") and int(p[3]) in delete_ack.values():
+            # a write of the key after its delete was called: what a read may return is no longer decided by the delete alone
+            delete_ack = {a: k for a, k in delete_ack.items() if k != int(p[3])}
+            acked.discard(int(p[3]))
+        for a, k in delete_ack.items():
+            if a < len(r["acks"]) and r["acks"][a] == 1:
+                acked.add(k)
+        for k, v in read_results(t, i):
+            if v is not None and k in acked and k not in deleted:
+                out.append(fail(t, i, "deleted-key-readable-after-acknowledgement", "read of key %d returned %d although the acknowledgement of delete(%d) had completed as accepted (the worker was waiting for the key's store shard, on which a reference guard is held)" % (k, v, k), no_shrink=True))
         for tid_ret in r.get("unblocked", []):
             if tid_ret[1] and tid_ret[1][0] in (0, 1):
                 for j in range(i - 1, -1, -1):
@@ -1141,7 +1163,9 @@ def mon_guard(t):
                         done.append(pj[2:])
                         break
         for call in done:
-            if call[0] == "delete":
+            if call[0] == "delete" and int(call[1]) in put_acknowledged:
+                # (C04: "once delete(k) has returned for a key whose put was acknowledged"; a delete called while the put is still
+                #  queued marks nothing and hides the key only when the worker gets to it: judged by its acknowledgement below)
                 deleted.add(int(call[1]))
             if call[0] == "upsert" and call[2] != "-":
                 current[int(call[1])] = int(call[2])
